@@ -215,14 +215,14 @@ sched!(c10_q_sched_n3_p120_g100, 3, [1, 2, 0], 0b100);
 sched!(c10_q_sched_n3_p120_g101, 3, [1, 2, 0], 0b101);
 sched!(c10_q_sched_n3_p120_g110, 3, [1, 2, 0], 0b110);
 sched!(c10_q_sched_n3_p120_g111, 3, [1, 2, 0], 0b111);
-sched!(c10_t_sched_n3_p201_g000, 3, [2, 0, 1], 0b000);
-sched!(c10_t_sched_n3_p201_g001, 3, [2, 0, 1], 0b001);
-sched!(c10_t_sched_n3_p201_g010, 3, [2, 0, 1], 0b010);
-sched!(c10_t_sched_n3_p201_g011, 3, [2, 0, 1], 0b011);
-sched!(c10_t_sched_n3_p201_g100, 3, [2, 0, 1], 0b100);
-sched!(c10_t_sched_n3_p201_g101, 3, [2, 0, 1], 0b101);
-sched!(c10_t_sched_n3_p201_g110, 3, [2, 0, 1], 0b110);
-sched!(c10_t_sched_n3_p201_g111, 3, [2, 0, 1], 0b111);
+sched!(c10_q_sched_n3_p201_g000, 3, [2, 0, 1], 0b000);
+sched!(c10_q_sched_n3_p201_g001, 3, [2, 0, 1], 0b001);
+sched!(c10_q_sched_n3_p201_g010, 3, [2, 0, 1], 0b010);
+sched!(c10_q_sched_n3_p201_g011, 3, [2, 0, 1], 0b011);
+sched!(c10_q_sched_n3_p201_g100, 3, [2, 0, 1], 0b100);
+sched!(c10_q_sched_n3_p201_g101, 3, [2, 0, 1], 0b101);
+sched!(c10_q_sched_n3_p201_g110, 3, [2, 0, 1], 0b110);
+sched!(c10_q_sched_n3_p201_g111, 3, [2, 0, 1], 0b111);
 sched!(c10_q_sched_n3_p210_g000, 3, [2, 1, 0], 0b000);
 sched!(c10_q_sched_n3_p210_g001, 3, [2, 1, 0], 0b001);
 sched!(c10_q_sched_n3_p210_g010, 3, [2, 1, 0], 0b010);
